@@ -20,7 +20,18 @@ def main():
         q = json.loads(line)
         try:
             mod = g[q['lang']]
-            if q['op'] == 'binary':
+            if q.get('pickled'):
+                # the arguments were built in the parent (another hash seed) and arrive pickled, the way
+                # depccg.parsing hands its rule functions and tables to worker processes
+                import base64
+                import pickle
+                obj = pickle.loads(base64.b64decode(q['pickled']))
+                if q['op'] == 'binary':
+                    kw = {'seen_rules': obj['seen']} if obj.get('seen') is not None else {}
+                    out = {'ok': serialise(mod.apply_binary_rules(obj['x'], obj['y'], **kw))}
+                else:
+                    out = {'ok': serialise(mod.apply_unary_rules(obj['x'], obj['table']))}
+            elif q['op'] == 'binary':
                 x, y = Category.parse(q['x']), Category.parse(q['y'])
                 kw = {}
                 if q.get('seen') is not None:
